@@ -407,6 +407,13 @@ func (P) Generate(g *hx.Gen) {
 		g.Case("corpus empty element decodes to nil pointer", append(header(r, "fuzz"), decOp(r, []byte{0xC1, 0xC0}, false, false)), true)
 	}
 
+	// (pin) the descriptors of the roots covered end to end by the round-trip theorem must be the pinned ones
+	for _, name := range []string{"Header", "BlockID", "PartSetHeader", "Part", "Transaction", "*consensus.HasVoteMessage",
+		"*consensus.NewRoundStepMessage", "*consensus.BlockPartMessage", "*consensus.VoteSetMaj23Message", "*consensus.CommitStepMessage",
+		"*consensus.ProposalPOLMessage", "*consensus.VoteSetBitsMessage"} {
+		g.Case("pin "+name, []string{hx.CaseOp("pin"), "pin root=" + sanitize(name)}, false)
+	}
+
 	// (rt) round trips, every root at least twice
 	nRT := g.Pick(5000, 30000)
 	for k := 0; k < nRT; k++ {
